@@ -650,9 +650,9 @@ theorem writtenMods_dropLabile (b : Annotation) (ion : Key) : ∀ m ∈ writtenM
     tauto
 
 theorem compMassCore_ok (env : Env) (mono : Bool) (b : Annotation) (ion : Key) (isotope : Int) (useIso : Bool)
-    (hstatic : b.static = none) (hiso : b.isotope = none) (had : b.adducts = none) (hres : KnownResidues b.seq)
+    (hstatic : b.static = none) (hiso : b.isotope = none) (hne : b.adducts ≠ some []) (hres : KnownResidues b.seq)
     (hcons : AllConsistent env mono (writtenMods b))
-    (hcc : ion = ionP ∨ ion = ionN ∨ (lookup ion Gen.baseAdducts).isSome = true)
+    (hcc : b.adducts = none → ion = ionP ∨ ion = ionN ∨ (lookup ion Gen.baseAdducts).isSome = true)
     (S : Rat) (hsb : ∃ c, seqBaseComp b ion = .ok c ∧ chemMassL (μ mono) c = S) :
     ∃ c d, compMassCore env b ion isotope useIso = .ok (c, d) ∧
       chemMassL (μ mono) c + d + gapSum env mono (placedMods b ion)
@@ -674,8 +674,8 @@ theorem compMassCore_ok (env : Env) (mono : Bool) (b : Annotation) (ion : Key) (
   have hsplit := placed_split env mono (dropLabile b ion) ion hlab2 hcons2
   rw [hplaced] at hsplit
   -- fields that the later stages read are unchanged
-  have hadd3 : (popped env (dropLabile b ion)).adducts = none := by
-    unfold popped dropLabile; split <;> simp [had]
+  have hadd3 : (popped env (dropLabile b ion)).adducts = b.adducts := by
+    unfold popped dropLabile; split <;> rfl
   have hiso3 : (popped env (dropLabile b ion)).isotope = none := by
     unfold popped dropLabile; split <;> simp [hiso]
   have hseq3 : (popped env (dropLabile b ion)).seq = b.seq := by
@@ -684,14 +684,24 @@ theorem compMassCore_ok (env : Env) (mono : Bool) (b : Annotation) (ion : Key) (
     unfold popped dropLabile; split <;> rfl
   have hclear : clearEmptyAdducts (popped env (dropLabile b ion)) = popped env (dropLabile b ion) := by
     unfold clearEmptyAdducts; rw [hadd3]
+    cases hb : b.adducts with
+    | none => rfl
+    | some l => cases l with
+      | nil => exact absurd hb hne
+      | cons m ms => rfl
   have hsb3 : seqBaseComp (popped env (dropLabile b ion)) ion = .ok sb := by
-    rw [← hsb]; unfold seqBaseComp carrierComp; rw [hseq3, hadd3, had, hch3]
+    rw [← hsb]; unfold seqBaseComp carrierComp; rw [hseq3, hadd3, hch3]
   have hcheck : carrierCheck (popped env (dropLabile b ion)) ion = .ok () := by
     unfold carrierCheck; rw [hadd3]
-    rcases hcc with h | h | h
-    · simp [h]; rfl
-    · simp [h]; rfl
-    · simp [h]; rfl
+    cases hb : b.adducts with
+    | some l => cases l with
+      | nil => exact absurd hb hne
+      | cons m ms => rfl
+    | none =>
+      rcases hcc hb with h | h | h
+      · simp [h]; rfl
+      · simp [h]; rfl
+      · simp [h]; rfl
   refine ⟨dropZeros (addAll (addAll [] sb) (addKey mc kNn (isotope : Rat))), deltaAll env (dropLabile b ion), ?_, ?_⟩
   · unfold compMassCore condenseStatic
     rw [hstatic]
@@ -751,8 +761,8 @@ theorem mass_eq_compMass_of_tables (hI : ionTablesOk = true) (env : Env) (a : An
   · -- precursor-like types: z protons against z·(H − e)
     have hsb := seqBase_pn o.mono (overrideArgs a o.charge none none) o.ion (f4 ▸ hres) (f3.trans had') adj hadj hpn
     obtain ⟨c, d, hcd, hm⟩ := compMassCore_ok env o.mono (overrideArgs a o.charge none none) o.ion o.isotope
-      o.useIsotopeOnMods (f1.trans hstatic) (f2.trans hl') (f3.trans had') (f4 ▸ hres) (f5 ▸ hcons)
-      (by simp only [Bool.or_eq_true, decide_eq_true_eq] at hpn; tauto) _ hsb
+      o.useIsotopeOnMods (f1.trans hstatic) (f2.trans hl') (by rw [f3, had']; simp) (f4 ▸ hres) (f5 ▸ hcons)
+      (fun _ => by simp only [Bool.or_eq_true, decide_eq_true_eq] at hpn; tauto) _ hsb
     refine ⟨c, d, hcd, ?_⟩
     have hct : Mass.chargeTerm ((effCharge a o).getD 0) o.ion o.mono none
         = .ok (Gen.protonMass * (((effCharge a o).getD 0 : Int) : Rat)) := by
@@ -776,8 +786,8 @@ theorem mass_eq_compMass_of_tables (hI : ionTablesOk = true) (env : Env) (a : An
     have hsb := seqBase_frag hI o.mono (overrideArgs a o.charge none none) o.ion (f4 ▸ hres) (f3.trans had') adj hadj
       hpn' ic hic
     obtain ⟨c, d, hcd, hm⟩ := compMassCore_ok env o.mono (overrideArgs a o.charge none none) o.ion o.isotope
-      o.useIsotopeOnMods (f1.trans hstatic) (f2.trans hl') (f3.trans had') (f4 ▸ hres) (f5 ▸ hcons)
-      (Or.inr (Or.inr (by rw [hs]; rfl))) _ hsb
+      o.useIsotopeOnMods (f1.trans hstatic) (f2.trans hl') (by rw [f3, had']; simp) (f4 ▸ hres) (f5 ▸ hcons)
+      (fun _ => Or.inr (Or.inr (by rw [hs]; rfl))) _ hsb
     refine ⟨c, d, hcd, ?_⟩
     have hfi : fragmentIonAdjMass o.mono o.ion = some (constMass o.mono ic) :=
       congrArg (Option.map (constMass o.mono)) hic
@@ -1114,8 +1124,8 @@ theorem mass_eq_compMass_static_of_tables (hI : ionTablesOk = true) (env : Env) 
   · have hsb := seqBase_pn o.mono (condenseWith (overrideArgs a o.charge none none) map) o.ion
       ((g2.trans f4) ▸ hres) ((g5.trans f3).trans had') adj hadj hpn
     obtain ⟨c, d, hcd, hm⟩ := compMassCore_ok env o.mono (condenseWith (overrideArgs a o.charge none none) map) o.ion
-      o.isotope o.useIsotopeOnMods g1 ((g3.trans f2).trans hl') ((g5.trans f3).trans had') ((g2.trans f4) ▸ hres) hconsC
-      (by simp only [Bool.or_eq_true, decide_eq_true_eq] at hpn; tauto) _ hsb
+      o.isotope o.useIsotopeOnMods g1 ((g3.trans f2).trans hl') (by rw [g5, f3, had']; simp) ((g2.trans f4) ▸ hres) hconsC
+      (fun _ => by simp only [Bool.or_eq_true, decide_eq_true_eq] at hpn; tauto) _ hsb
     refine ⟨c, d, hcd, ?_⟩
     have hct : Mass.chargeTerm ((effCharge a o).getD 0) o.ion o.mono none
         = .ok (Gen.protonMass * (((effCharge a o).getD 0 : Int) : Rat)) := by
@@ -1138,8 +1148,8 @@ theorem mass_eq_compMass_static_of_tables (hI : ionTablesOk = true) (env : Env) 
     have hsb := seqBase_frag hI o.mono (condenseWith (overrideArgs a o.charge none none) map) o.ion
       ((g2.trans f4) ▸ hres) ((g5.trans f3).trans had') adj hadj hpn' ic hic
     obtain ⟨c, d, hcd, hm⟩ := compMassCore_ok env o.mono (condenseWith (overrideArgs a o.charge none none) map) o.ion
-      o.isotope o.useIsotopeOnMods g1 ((g3.trans f2).trans hl') ((g5.trans f3).trans had') ((g2.trans f4) ▸ hres) hconsC
-      (Or.inr (Or.inr (by rw [hsx]; rfl))) _ hsb
+      o.isotope o.useIsotopeOnMods g1 ((g3.trans f2).trans hl') (by rw [g5, f3, had']; simp) ((g2.trans f4) ▸ hres) hconsC
+      (fun _ => Or.inr (Or.inr (by rw [hsx]; rfl))) _ hsb
     refine ⟨c, d, hcd, ?_⟩
     have hfi : fragmentIonAdjMass o.mono o.ion = some (constMass o.mono ic) :=
       congrArg (Option.map (constMass o.mono)) hic
@@ -1152,6 +1162,191 @@ theorem mass_eq_compMass_static_of_tables (hI : ionTablesOk = true) (env : Env) 
     simp only [hpn', Bool.false_eq_true, if_false]
     rw [g6, g6g, f6, g2, f4, hz] at hm
     linarith
+
+
+/-! ### explicit adduct lists inside the identity -/
+
+/-- mass side minus composition side for one stated ion: the electron correction applied once instead of `count`
+times; for an "electron" written with a charge other than −1 the two sides read the count differently -/
+def ionGap (x : List Nat) : Rat :=
+  match parseIonElements x with
+  | .ok (cnt, sym, q) =>
+    if sym = kE then (cnt : Rat) * Gen.electronMass * (1 + (q : Rat))
+    else (q : Rat) * Gen.electronMass * ((cnt : Rat) - 1)
+  | .error _ => 0
+
+/-- … for a whole list; the literal `+H+` is `PROTON_MASS` on the mass side and `H − e` in the composition -/
+def adductGap (mono : Bool) (s : List Nat) : Rat :=
+  if s = [43, 72, 43] then Gen.protonMass - hplus mono else sumR ((splitComma s).map ionGap)
+
+def ionCompOf (x : List Nat) : Comp := match adductComp x with | .ok c => c | .error _ => []
+
+theorem mu_eq_lib (mono : Bool) (e : Elem) : μ mono e = lib.elem mono e := rfl
+
+theorem adduct_ion (hK : avgKeysOk = true) (mono : Bool) (x : List Nat) (h : adductIonOk mono x = true) :
+    adductComp x = .ok (ionCompOf x) ∧
+    adductMass mono x = .ok (chemMassL (μ mono) (ionCompOf x) + ionGap x) := by
+  unfold adductIonOk at h
+  unfold ionCompOf adductComp adductMass ionGap
+  cases hp : parseIonElements x with
+  | error e => rw [hp] at h; simp at h
+  | ok r =>
+    obtain ⟨cnt, sym, q⟩ := r
+    rw [hp] at h
+    simp only [bind_ok, pure_eq_ok]
+    refine ⟨trivial, ?_⟩
+    by_cases he : sym = kE
+    · subst he
+      simp only [if_true, setKey]
+      show Except.ok _ = Except.ok _
+      congr 1
+      rw [chemMassL_cons, chemMassL_nil, mu_electron]
+      simp only
+      ring
+    · simp only [he, if_false, decide_false, Bool.false_or] at h ⊢
+      obtain ⟨m, hm⟩ := Option.isSome_iff_exists.mp h
+      rw [hm]
+      have hel : μ mono sym = m := elem_of_table hK mono sym m hm
+      have hs : setKey [(sym, (cnt : Rat))] kE (-1 * (q : Rat) * (cnt : Rat)) = [(sym, (cnt : Rat)), (kE, -1 * (q : Rat) * (cnt : Rat))] := by
+        simp [setKey, he]
+      rw [hs]
+      show Except.ok _ = Except.ok _
+      congr 1
+      rw [chemMassL_cons, chemMassL_cons, chemMassL_nil, mu_electron, hel]
+      simp only
+      ring
+
+theorem adducts_str (hK : avgKeysOk = true) (mono : Bool) (s : List Nat)
+    (h : (splitComma s).all (adductIonOk mono) = true) :
+    ∃ comp, chargeAdductsCompStr s = .ok comp ∧
+      chargeAdductsMassStr mono s = .ok (chemMassL (μ mono) comp + adductGap mono s) := by
+  have hc := foldlM_comp_ok (fun (acc : Comp) (a : List Nat) => do let c ← adductComp a; pure (addAll acc c))
+    (fun x => chemMassL (μ mono) (ionCompOf x)) (μ mono) (splitComma s)
+    (by
+      intro acc x hx
+      obtain ⟨h1, _⟩ := adduct_ion hK mono x (List.all_eq_true.mp h x hx)
+      exact ⟨addAll acc (ionCompOf x), by rw [h1]; rfl, chemMassL_addAll _ _ _⟩) []
+  obtain ⟨comp, hcomp, hm⟩ := hc
+  refine ⟨comp, hcomp, ?_⟩
+  rw [chemMassL_nil] at hm
+  unfold chargeAdductsMassStr adductGap
+  by_cases hs : s = [43, 72, 43]
+  · subst hs
+    simp only [if_true]
+    show Except.ok _ = Except.ok _
+    congr 1
+    have hsp : splitComma [43, 72, 43] = [[43, 72, 43]] := by decide
+    rw [hsp] at hm
+    have hp : parseIonElements [43, 72, 43] = .ok (1, kH, 1) := by decide +kernel
+    have hi : ionCompOf [43, 72, 43] = [(kH, 1), (kE, -1 * 1 * 1)] := by
+      unfold ionCompOf adductComp
+      rw [hp]
+      simp [setKey, bind_ok, pure_eq_ok]
+      decide
+    rw [hm, List.map_cons, List.map_nil, sumR_cons, sumR_nil, hi, chemMassL_cons, chemMassL_cons, chemMassL_nil, mu_electron]
+    unfold hplus
+    simp only
+    ring
+  · simp only [hs, if_false]
+    rw [sumM_ok (adductMass mono) (fun x => chemMassL (μ mono) (ionCompOf x) + ionGap x) _
+      (fun x hx => (adduct_ion hK mono x (List.all_eq_true.mp h x hx)).2)]
+    show Except.ok _ = Except.ok _
+    congr 1
+    rw [hm]
+    generalize splitComma s = l
+    induction l with
+    | nil => simp [sumR_nil]
+    | cons x l ih => simp only [List.map_cons, sumR_cons, ih]; ring
+
+
+/-- where the adduct list comes from: the `charge_adducts` argument, or the annotation (`PEPTIDE/2[+Na+,+K+]`) -/
+def AdductSource (a : Annotation) (o : Opts) (s : List Char) : Prop :=
+  o.adducts = some (.str s) ∨ (o.adducts = none ∧ ∃ k ms, a.adducts = some (⟨.str s, k⟩ :: ms))
+
+theorem resolve_of_source (a : Annotation) (o : Opts) (s : List Char) (h : AdductSource a o s)
+    (hl : o.isotopeMods = none) (hl' : a.isotope = none) :
+    resolveArgs a o = .ok ⟨effCharge a o, some (.str s), none⟩ := by
+  unfold resolveArgs effLabels
+  rw [hl, hl']
+  rcases h with h | ⟨h, k, ms, ha⟩
+  · rw [h]
+    cases a.adducts <;> rfl
+  · rw [h, ha]; rfl
+
+theorem override_adducts (a : Annotation) (o : Opts) (s : List Char) (h : AdductSource a o s) :
+    ∃ k ms, (overrideArgs a o.charge o.adducts none).adducts = some (⟨.str s, k⟩ :: ms) ∧
+    (overrideArgs a o.charge o.adducts none).static = a.static ∧
+    (overrideArgs a o.charge o.adducts none).isotope = a.isotope ∧
+    (overrideArgs a o.charge o.adducts none).seq = a.seq ∧
+    writtenMods (overrideArgs a o.charge o.adducts none) = writtenMods a ∧
+    (∀ ion, placedMods (overrideArgs a o.charge o.adducts none) ion = placedMods a ion) := by
+  rcases h with h | ⟨h, k, ms, ha⟩
+  · rw [h]
+    exact ⟨1, [], by cases o.charge <;> rfl, by cases o.charge <;> rfl, by cases o.charge <;> rfl,
+      by cases o.charge <;> rfl, by cases o.charge <;> rfl, fun _ => by cases o.charge <;> rfl⟩
+  · rw [h]
+    exact ⟨k, ms, by cases o.charge <;> exact ha, by cases o.charge <;> rfl, by cases o.charge <;> rfl,
+      by cases o.charge <;> rfl, by cases o.charge <;> rfl, fun _ => by cases o.charge <;> rfl⟩
+
+/-- **the identity with an explicit adduct list** (any ion type: the list replaces the whole charge carrier in both
+calculators): mass = chem_mass(comp) + δ + loss + `adductGap` + row gaps, where `adductGap` = Σ q·mₑ·(count − 1) over the
+stated ions is the known finding KF-C03-adduct-electron-count, exactly -/
+theorem mass_eq_compMass_adducts_of_tables (hK : avgKeysOk = true) (env : Env) (a : Annotation) (o : Opts) (s : List Char)
+    (hsrc : AdductSource a o s)
+    (hstatic : a.static = none) (hl : o.isotopeMods = none) (hl' : a.isotope = none) (hprec : o.precision = none)
+    (hres : KnownResidues a.seq) (hcons : AllConsistent env o.mono (writtenMods a))
+    (hadj : (lookup o.ion neutralAdj).isSome = true)
+    (hions : (splitComma (s.map Char.toNat)).all (adductIonOk o.mono) = true) :
+    ∃ c d, compMass env a o.ion o.charge o.isotope o.adducts none o.useIsotopeOnMods = .ok (c, d) ∧
+      mass env a o = .ok (chemMassL (μ o.mono) c + d + o.loss + adductGap o.mono (s.map Char.toNat)
+        + gapSum env o.mono (placedMods a o.ion)) := by
+  obtain ⟨adj, hadj⟩ := Option.isSome_iff_exists.mp hadj
+  obtain ⟨k, ms, fa, f1, f2, f4, f5, f6⟩ := override_adducts a o s hsrc
+  obtain ⟨carrier, hcar, hmass⟩ := adducts_str hK o.mono (s.map Char.toNat) hions
+  have hfa : fragmentAdjMass o.mono o.ion = some (constMass o.mono adj) :=
+    congrArg (Option.map (constMass o.mono)) hadj
+  have hpl : (placedMods a o.ion).all (modResolves env o.mono) = true := by
+    apply consistent_resolves
+    intro m hm
+    apply hcons
+    rw [placedMods_eq] at hm
+    unfold writtenMods
+    by_cases hp : o.ion = ionP
+    · simp only [hp, if_true, List.mem_append] at hm ⊢; tauto
+    · simp only [hp, if_false, List.nil_append, List.mem_append] at hm ⊢; tauto
+  -- the composition side
+  obtain ⟨rc, hrc, hrm⟩ := residueComp_ok o.mono a.seq hres
+  have hsb : ∃ c, seqBaseComp (overrideArgs a o.charge o.adducts none) o.ion = .ok c ∧
+      chemMassL (μ o.mono) c = resSum o.mono a.seq + constMass o.mono adj + chemMassL (μ o.mono) carrier := by
+    refine ⟨addAll (addAll rc adj) carrier, ?_, ?_⟩
+    · unfold seqBaseComp carrierComp chargeAdductsComp
+      rw [f4, hrc, bind_ok, hadj, fa]
+      simp only
+      rw [hcar]
+      rfl
+    · rw [chemMassL_addAll, chemMassL_addAll, hrm]; rfl
+  rw [compMass_eq_core]
+  obtain ⟨c, d, hcd, hm⟩ := compMassCore_ok env o.mono (overrideArgs a o.charge o.adducts none) o.ion o.isotope
+    o.useIsotopeOnMods (f1.trans hstatic) (f2.trans hl') (by rw [fa]; simp) (f4 ▸ hres) (f5 ▸ hcons)
+    (fun h => by rw [fa] at h; cases h) _ hsb
+  refine ⟨c, d, hcd, ?_⟩
+  -- the mass side
+  have hr := resolve_of_source a o s hsrc hl hl'
+  obtain ⟨hB, hZ⟩ := noBZ a.seq hres
+  unfold mass massWith
+  rw [hr, bind_ok]
+  simp only [hB, hZ, Bool.false_eq_true, if_false]
+  unfold fastMass
+  have hs : staticMass env o.mono a.seq a.static = .ok 0 := by rw [hstatic]; rfl
+  rw [hs, bind_ok, residueMass_lib o.mono a.seq hres, bind_ok, placedModsMass_ok env o.mono a o.ion hpl, bind_ok]
+  unfold adjustMass Mass.chargeTerm chargeAdductsMass
+  dsimp only
+  rw [hmass, bind_ok, hfa, hprec]
+  show Except.ok _ = Except.ok _
+  apply congrArg Except.ok
+  simp only [roundOpt]
+  rw [f6] at hm
+  linarith
 
 end CompCalc
 end Pept
